@@ -497,6 +497,76 @@ fn main() {
         *stats.entry("compressed_histories".into()).or_default() += 1;
     }
 
+    // ---- stream 4: Freezer (block level): freeze / retrieve / truncate / re-open / crash cut with real packed blocks
+    {
+        use ckb_freezer::Freezer;
+        use ckb_types::core::{BlockBuilder, BlockView, HeaderBuilder};
+        use ckb_types::prelude::*;
+        let n_blk = if thorough { 400 } else { 40 };
+        for bi in 0..n_blk {
+            let dir = scratch.join(format!("fz{bi}"));
+            let _ = fs::remove_dir_all(&dir);
+            fs::create_dir_all(&dir).unwrap();
+            // a chain of blocks with linked parent hashes and proposals of varying size
+            let n = rng.range(3, 14);
+            let mut blocks: Vec<BlockView> = vec![];
+            let mut parent = ckb_types::packed::Byte32::zero();
+            for k in 0..=n {
+                let header = HeaderBuilder::default().number(k).parent_hash(parent.clone()).timestamp(1000 + k).build();
+                let props: Vec<ckb_types::packed::ProposalShortId> = (0..rng.below(6)).map(|j| ckb_types::packed::ProposalShortId::new([(k as u8).wrapping_add(j as u8); 10])).collect();
+                let b = BlockBuilder::default().header(header).proposals(props).build();
+                parent = b.hash();
+                blocks.push(b);
+            }
+            let ctx = json!({"stream": "freezer-blocks", "blocks": n, "index": bi});
+            let res = std::panic::catch_unwind(std::panic::AssertUnwindSafe(|| -> Vec<String> {
+                let mut errs = vec![];
+                let get = |k: u64| blocks.get(k as usize).cloned();
+                let fz = Freezer::open(dir.clone()).expect("open");
+                let t1 = rng.range(2, n);
+                fz.freeze(t1, get).expect("freeze");
+                if fz.number() != t1 { errs.push(format!("after freeze({t1}) number() = {}", fz.number())); }
+                for k in 1..t1 { if fz.retrieve(k).ok().flatten().as_deref() != Some(blocks[k as usize].data().as_slice()) { errs.push(format!("retrieve({k}) is not the frozen block")); } }
+                // optional truncate
+                let mut have = t1;
+                if rng.chance(1, 3) && t1 > 3 {
+                    let keep = rng.range(1, t1 - 2);
+                    fz.truncate(keep).expect("truncate");
+                    have = keep + 1;
+                    if fz.number() != have { errs.push(format!("after truncate({keep}) number() = {}", fz.number())); }
+                }
+                drop(fz);
+                // crash cut: index and head file
+                if rng.chance(1, 2) {
+                    let idx = read_index(&dir);
+                    let head = idx.last().map(|e| e.0).unwrap_or(0);
+                    let back = rng.below(std::cmp::min(3, idx.len() as u64));
+                    let ib = (idx.len() as u64 - back) * 12 + *rng.pick(&[0u64, 0, 5]);
+                    let hl = fs::metadata(blk(&dir, head)).map(|m| m.len()).unwrap_or(0);
+                    let c = hl.saturating_sub(rng.below(40));
+                    set_len(&dir.join("INDEX"), ib);
+                    set_len(&blk(&dir, head), c);
+                }
+                let fz = match Freezer::open(dir.clone()) { Ok(f) => f, Err(e) => { errs.push(format!("re-open failed: {e}")); return errs; } };
+                let got = fz.number();
+                if got > have || got < 1 { errs.push(format!("after re-open number() = {got}, had {have}")); }
+                for k in 1..got { if fz.retrieve(k).ok().flatten().as_deref() != Some(blocks[k as usize].data().as_slice()) { errs.push(format!("after re-open retrieve({k}) is not the frozen block")); } }
+                // continue freezing from where it is: the parent-hash check must accept the true next block
+                if let Err(e) = fz.freeze(n + 1, |k: u64| blocks.get(k as usize).cloned()) { errs.push(format!("freezing on after re-open failed: {e}")); }
+                if fz.number() != n + 1 { errs.push(format!("after freezing on number() = {}", fz.number())); }
+                for k in 1..=n { if fz.retrieve(k).ok().flatten().as_deref() != Some(blocks[k as usize].data().as_slice()) { errs.push(format!("at the end retrieve({k}) is not the frozen block")); } }
+                errs
+            }));
+            evaluations += 1;
+            distinct.insert(format!("fzb{bi}"));
+            *stats.entry("freezer_block_histories".into()).or_default() += 1;
+            match res {
+                Err(_) => viol.push(Violation { what: "panic in the block-level freezer".into(), detail: ctx }),
+                Ok(errs) => for e in errs { viol.push(Violation { what: format!("block-level freezer: {e}"), detail: ctx.clone() }); },
+            }
+            let _ = fs::remove_dir_all(&dir);
+        }
+    }
     for (i, cf) in files.iter().enumerate() {
         cf.write().unwrap();
         fs::write(out.join(format!("cases_{:02}.json", i)), serde_json::to_string(&descs[i]).unwrap()).unwrap();
@@ -507,7 +577,7 @@ fn main() {
         "seed": seed,
         "evaluations": evaluations,
         "distinct_nontrivial": distinct.len(),
-        "rule": "histories of append/truncate/reopen/crash-cut over max_file_size in {6..120} (distinct = distinct (max, op list); non-trivial = at least two appends); sweeps enumerate every (index length, head file length) cut around the last four index entries of a small disk",
+        "rule": "histories of append/truncate/reopen/crash-cut over max_file_size in {6..120} (distinct = distinct (max, op list); non-trivial = at least two appends); sweeps enumerate every (index length, head file length) cut around the last four index entries of a small disk; a block-level stream drives Freezer::{open, freeze, truncate, retrieve} with real packed blocks (parent-hash linkage, tip re-derivation after re-open and crash cuts)",
         "distribution": stats,
         "samples": samples,
         "impl_violations": viol.iter().map(|v| json!({"what": v.what, "detail": v.detail})).collect::<Vec<_>>(),
